@@ -590,6 +590,66 @@ def make_readback(nrows, delim):
     return mk, replay
 
 
+def native_delimited_roundtrip():
+    """concrete: the real csv writer and reader (C code) between Writer and rows(): tables of hostile cell values
+    (line breaks of every kind, quotes, delimiters, backslashes, blanks) mixed with rejected rows, under several
+    delimited dialects; the output read back under the same CID gives exactly the accepted rows.  Exploration over
+    a finite pool, not a solver verdict."""
+    import io
+    from cutplace import interface, validio, errors
+    failures = []
+    n = 0
+    dialects = {"default": (), "line delimiter lf": ("d,line delimiter,lf",), "line delimiter cr": ("d,line delimiter,cr",),
+                "line delimiter crlf": ("d,line delimiter,crlf",), "item delimiter ;": ("d,item delimiter,;",),
+                "quote character '": ('d,quote character,"\'"',), "escape character backslash": ("d,escape character,\\",),
+                "item delimiter tab": ("d,item delimiter,tab",), "encoding utf-8, header 1": ("d,encoding,utf-8", "d,header,1")}
+    values = ["a\rb", "a\nb", "a\r\nb", 'a"b', "a,b", "a;b", "a'b", " a", "a ", "\\", "a\\b", "\t", '"', "'", '""', "a\\\"b",
+              "\\n", "x", "\u00e9\u20ac", "a\tb", "a, b", ",", ";", "\r", "\n", "\r\n", "'a'", '"a"', "a\x0bb", "a\x0cb", "a\x1cb",
+              "a\x85b", "a\u2028b"]
+    for name, extra in dialects.items():
+        text = "\n".join(("d,format,delimited",) + extra + ("f,a", "f,b,,X,...3")) + "\n"
+        header = 1 if "header 1" in name else 0
+        table = [["caption\nwith break", "second caption"]] if header else []
+        expected = []  # (header rows are written as they are and skipped when reading)
+        for i, v in enumerate(values):
+            for row in ([v, ""], ["x", v], [v, "toolong"], [v, v], [""  , v]):
+                table.append(row)
+                if row[0] != "" and len(row[1]) <= 3:
+                    expected.append(row)
+        n += 1
+        try:
+            cid = interface.create_cid_from_string(text)
+            out = io.StringIO()
+            writer = validio.Writer(cid, out)
+            verdicts_ok = True
+            for k, row in enumerate(table):
+                exp_ok = k < header or (row[0] != "" and len(row[1]) <= 3)
+                try:
+                    writer.write_row(row)
+                    got_ok = True
+                except errors.DataError:
+                    got_ok = False
+                if got_ok != exp_ok:
+                    verdicts_ok = False
+                    failures.append(dict(key="writer-delimited-roundtrip", what="dialect %s: write_row(%r) accepted=%s expected %s" % (
+                        name, row, got_ok, exp_ok), args=dict(dialect=name, row=row)))
+                    break
+            writer.close()
+            if not verdicts_ok:
+                continue
+            back = list(validio.rows(interface.create_cid_from_string(text), io.StringIO(out.getvalue(), newline=""), on_error="yield"))
+            if back != expected:
+                diff = next((i for i, (a, b) in enumerate(zip(back, expected)) if a != b), min(len(back), len(expected)))
+                failures.append(dict(key="writer-delimited-roundtrip", what="dialect %s: output read back differs at row %d: got %r, "
+                                     "written %r (%d rows read, %d written)" % (name, diff + 1, back[diff] if diff < len(back) else None,
+                                                                               expected[diff] if diff < len(expected) else None,
+                                                                               len(back), len(expected)), args=dict(dialect=name)))
+        except Exception as e:  # noqa
+            failures.append(dict(key="writer-delimited-roundtrip", what="dialect %s raised %s: %s" % (name, type(e).__name__, e),
+                                 args=dict(dialect=name)))
+    return dict(count=n, failures=failures, samples=[])
+
+
 def build(tier, seed):
     q = []
     OK, BAD = ("ab", "c"), ("toolong", "")
@@ -645,11 +705,12 @@ def build(tier, seed):
                        "every text in written form (%d records of 3 characters + %s, regions accepted by their fields)" % (
                            nrows, delim), budget_s=900 if tier == "quick" else 3000, per_path_timeout=120, replay=rp,
                        functions=FUNCS, stubs=("S-STREAM", "S-FMT")))
-    return dict(queries=q, warm=("strip",),
+    return dict(queries=q, warm=("strip",), native=native_delimited_roundtrip,
                 assumptions=["(w) and (r) meet at the predicate 'written form'; (r) quantifies over every text of that form, "
                              "not only those a writer produced", "header rows are written unvalidated; malformed header "
                              "rows are outside the claim"],
-                outside_claim=["the bytes the csv module produces (C12)", "encoding errors of the target stream",
+                outside_claim=["the bytes the csv module produces (C12) beyond the native round-trip pool; leading blanks under "
+                               "'skip initial space' (dropped by that dialect by definition)", "encoding errors of the target stream",
                                "more than 3 rows"],
                 exhaustive=False)
 
